@@ -28,7 +28,6 @@ SHAPE_KEYS: set[tuple[str, str]] = {
     ("C19.R1", "free-of-non-definition"),
     ("C19.R3", "no-exclusion"),
     ("C20.R1", "scratch-not-designated"),
-    ("C20.R3", "float-cycle"),
     ("C20.R4", "result-twice"),
     ("C23.R3", "blocks-precreated"),
     ("C23.R3", "ops-between-phis"),
